@@ -96,6 +96,26 @@ inline vf::CaseResult run_sessions(const vf::RunnerArgs& /*args*/, const std::ve
     std::vector<Ev> events;
     g_events = &events;
     vf::g_event_sink = event_sink;
+    S.clock = 0;
+    // large capacities (the header default is 300): the table is filled up to the last few slots before the threads start, one enter
+    // at a time (each is judged by the sequential rule: it must succeed), so that the concurrent part runs at the capacity limit
+    std::vector<SessCall> prefill;
+    if (cap > 4 && c.chance(3, 4)) {
+        const std::size_t n_pre = cap - c.range(0, 3);
+        tx << " prefill: " << n_pre << " sessions opened one by one before the threads start\n";
+        for (std::size_t i = 0; i < n_pre; ++i) {
+            SessCall sc{};
+            sc.thread = -1;
+            sc.is_enter = true;
+            Token tok{};
+            sc.inv = S.now();
+            sc.rc = enter(tok);
+            sc.resp = S.now();
+            sc.tok = tok;
+            if (sc.rc == status::OK) { sc.begin_at_return = static_cast<thread_info*>(tok)->get_begin_epoch(); }
+            prefill.push_back(sc);
+        }
+    }
     std::vector<std::function<void()>> bodies;
     for (unsigned t = 0; t < nt; ++t) {
         bodies.emplace_back([&, t] {
@@ -136,8 +156,7 @@ inline vf::CaseResult run_sessions(const vf::RunnerArgs& /*args*/, const std::ve
             // sessions still open at the end stay open until the case is reset (a user may do that)
         });
     }
-    S.step_limit = 200000;
-    S.clock = 0;
+    S.step_limit = cap > 4 ? 2000000 : 200000;
     S.preempt_cats = 0xffffffffU;
     sched::RevBytes rb(bytes.data(), bytes.size());
     sched::Outcome oc = S.run(std::move(bodies), rb);
@@ -150,10 +169,11 @@ inline vf::CaseResult run_sessions(const vf::RunnerArgs& /*args*/, const std::ve
             reset_sessions();
             return res;
         }
-        std::vector<SessCall> all;
+        std::vector<SessCall> all = prefill;
         for (auto& v : calls) { all.insert(all.end(), v.begin(), v.end()); }
         std::ostringstream hs;
         for (auto& x : all) {
+            if (x.thread < 0 && x.rc == status::OK) { continue; } // successful prefill calls are summarised above
             hs << " [T" << x.thread << (x.is_enter ? " enter->" : " leave->") << to_string_view(x.rc) << " tok=" << x.tok << " @" << x.inv << "-" << x.resp << "]";
         }
         text += " history:" + hs.str() + "\n";
